@@ -13,6 +13,9 @@ CHECKS = {
  "C05": ("runtime monitor: reference time oracle with an injected spy clock at nanosecond offsets around each bound",
          "exploration: signed responses whose bounds sit at -1s/-1ns/0/+1ns/+1s from the injected clock (all renderings, 1-3 assertions, missing/malformed bounds) are validated by the real library; the oracle recomputes expiry and the half-open validity window from the semantic record",
          "wall clock is decades away from all windows; only RFC 3339 renderings Go's time.Parse accepts are used as well-formed bounds", "4/C05"),
+ "C11": ("runtime monitor: round-trip equality oracle (harness encryptor vs library decryptor) and encrypted/plain twin comparison",
+         "exploration: the harness's own XML-Enc encryptor produces every advertised algorithm combination for every plaintext length residue; the real DecryptBytes/Decrypt/ValidateEncodedResponse must give back the exact bytes / the same outcome and data as the plaintext twin, for five ways of configuring the SP key",
+         "OAEP uses one hash for label and MGF1; setter keys are *rsa.PrivateKey", "4/C11"),
 }
 
 NOT_BUILT = "monitor not built yet in this session (planned in DESIGN.md section 4)"
